@@ -106,6 +106,35 @@ def check(chk: Check) -> None:
                         'depth %+d, token returned' % want if ok else 'changes %s by %s and returns its token %s; expected exactly %+d and always' % (
                             depth, sorted(map(str, deltas)), r.returns_token, want))
 
+    # the depth the line-break rule consults must be 0 when the first token of a text is read: every entry point that lexes
+    # assigns 0 before it asks PLY for a token (a text that stopped inside a bracket - a syntax error, a half-typed call handed
+    # to list_names - otherwise leaves later texts with their top-level line breaks ignored)
+    if depth is not None:
+        from .c11 import _is_ply_call, PARSER
+        for mn in ('parse', 'list_names'):
+            q = PARSER + '.' + mn
+            if q not in F.functions:
+                continue
+            fi_ = F.func(q)
+            selft = ('param', om.self_param(F, q))
+            lex = ('attr', selft, 'lex')
+            bad = []
+            n_runs = 0
+            for p in SymExec(F, fi_).run():
+                runs = [e for e in p.events if e.kind == 'call' and _is_ply_call(e, selft) and freeze(e.func)[2] in ('token', 'parse')]
+                if not runs:
+                    continue
+                n_runs += 1
+                first = p.events.index(runs[0])
+                val = None
+                for e in p.events[:first]:
+                    if e.kind == 'store_attr' and e.attr == depth and freeze(e.obj) == lex:
+                        val = freeze(e.value)
+                if val != ('const', 0):
+                    bad.append('lexer.%s is %s when `%s` starts reading' % (depth, 'whatever the previous text left' if val is None else show(val), runs[0].text()))
+            chk.require(not bad and n_runs, R1, '%s starts at bracket depth 0' % q, fi_.where, '; '.join(sorted(set(bad))) or
+                        'lexer.%s = 0 before the first token on all %d lexing path(s)' % (depth, n_runs))
+
     # --------------------------------------------------------------------- R2
     sep_prods = [p for p in g.productions[1:] if NL in p.rhs]
     ok = len(sep_prods) == 1 and len(sep_prods[0].rhs) == 3 and sep_prods[0].rhs[0] == sep_prods[0].lhs and sep_prods[0].rhs[1] == NL
@@ -205,6 +234,42 @@ def check(chk: Check) -> None:
                     'returns $2 itself; no conflict involves it' if good and not conflicts else
                     ('the group builds %s instead of returning the inner tree' % ' / '.join(show(r) for r in res) if not good else
                      'the completed group item is part of %d conflict(s)' % len(conflicts)))
+
+    # ... and around *every* kind of subexpression: for each alternative X of the grouped non-terminal the token strings
+    # ( X ) and ( ( X ) ) are accepted and are reduced through that alternative and the group production
+    for gp in groups:
+        LP, RP = gp.rhs[0], gp.rhs[2]
+        pre, suf = ctxs.get(gp.lhs, ((), ()))
+        n_alt = 0
+        rejected = []
+        for q_ in g.productions[1:]:
+            if q_.lhs != gp.lhs or q_.index in raising or q_.index == gp.index:
+                continue
+            sent: List[str] = []
+            okx = True
+            for s_ in q_.rhs:
+                if s_ in nts:
+                    if s_ not in short:
+                        okx = False
+                        break
+                    sent += list(short[s_])
+                else:
+                    sent.append(s_)
+            if not okx:
+                continue
+            ok0, _, reduced0 = lalr.simulate(T, list(pre) + sent + list(suf))
+            if not ok0:
+                continue            # the bare form is not accepted either (see C06): nothing for parentheses to preserve
+            n_alt += 1
+            for depth_ in (1, 2):
+                toks = list(pre) + [LP] * depth_ + sent + [RP] * depth_ + list(suf)
+                okk, why, reduced = lalr.simulate(T, toks)
+                if not (okk and gp.index in reduced and set(reduced0) <= set(reduced)):
+                    rejected.append('`%s` (%s)' % (' '.join(toks), why if not okk else 'accepted, but parsed differently from the bare `%s`' % ' '.join(sent)))
+                    break
+        chk.require(not rejected and n_alt, R5, 'parentheses around every alternative of %s' % gp.lhs, '%s:%d' % (g.module.rel, gp.line),
+                    'the automaton does not accept %s' % '; '.join(rejected[:3]) if rejected else
+                    '( X ) and ( ( X ) ) accepted for all %d alternatives' % n_alt)
 
     # --------------------------------------------------------------------- R6
     ccls, nf, af = common.call_role(chk)
